@@ -8,7 +8,8 @@ ID=$(basename $S)
 WT=/tmp/seedwt.$ID.$$
 VV=/tmp/seedvv.$ID.$$
 DM=/tmp/seeddemo.$ID.$$
-git -C /repo worktree add -q --detach $WT HEAD || exit 2
+git -C /repo worktree add -q --detach $WT ${REPO_REV:-HEAD} || exit 2
+ERRLINT=${ERRLINT:-/verif/bin/errlint}
 trap 'git -C /repo worktree remove --force $WT; rm -rf $VV $DM' EXIT
 mkdir -p $VV $DM; cp /verif/known_findings.json $VV/
 cp $S/demo_test.go $DM/ 2>/dev/null; cp $S/*_test.go $DM/ 2>/dev/null
@@ -22,14 +23,17 @@ EOF
 cp $WT/go.sum $DM/
 RACE=""; grep -qi 'race' $S/meta.json && RACE="-race"
 if [ -n "$FAST" ]; then CLEAN=skip; else (cd $DM && go mod tidy >/dev/null 2>&1; go test $RACE -count=1 ./... >$VV/demo_clean.log 2>&1); CLEAN=$?; fi
-if ! git -C $WT apply $S/patch.diff 2>$VV/apply.log; then echo "$ID APPLY-FAILED $(head -1 $VV/apply.log)"; exit 1; fi
+if ! git -C $WT apply $S/patch.diff 2>$VV/apply.log; then
+  # the tree moved on since the seed was made (a later fix: commit touched the same file): try a 3-way merge
+  if ! git -C $WT apply --3way $S/patch.diff 2>>$VV/apply.log || grep -rq "^<<<<<<<" $(git -C $WT diff --name-only | sed "s|^|$WT/|") 2>/dev/null; then echo "$ID APPLY-FAILED $(head -1 $VV/apply.log)"; exit 1; fi
+fi
 (cd $WT && go build ./... >$VV/build.log 2>&1) || { echo "$ID BUILD-FAILED"; exit 1; }
 if [ -n "$FAST" ]; then MUT=skip; BASE=skip; else (cd $DM && go test $RACE -count=1 ./... >$VV/demo_mut.log 2>&1); MUT=$?
 python3 /verif/tools/baseline.py $WT >$VV/base.log 2>&1; BASE=$?; fi
 PROPS="$@"; [ -z "$PROPS" ] && PROPS=$(python3 -c "import json;print(' '.join(c['property_id'] for c in json.load(open('/verif/MANIFEST.json'))['checks']))")
 DET=""
 for P in $PROPS; do
-  /verif/bin/errlint -repo $WT -verif $VV -prop $P >$VV/$P.log 2>&1
-  if grep -q '^VIOLATION' $VV/$P.log; then DET="$DET $P[$(grep -o '\[R-[A-Z-]*\]' $VV/$P.log | sort -u | tr -d '[]' | tr '\n' ',' | sed 's/,$//')]"; fi
+  $ERRLINT -repo $WT -verif $VV -prop $P >$VV/$P.log 2>&1
+  if grep -q '^VIOLATION' $VV/$P.log; then DET="$DET $P[$(grep -v '^KNOWN-FINDING' $VV/$P.log | grep -o '\[R-[A-Z/a-z0-9-]*\]' | sort -u | tr -d '[]' | tr '\n' ',' | sed 's/,$//')]"; fi
 done
 echo "$ID demo_clean=$CLEAN demo_mut=$MUT baseline=$BASE detected_by:${DET:- NONE}"
